@@ -13,7 +13,8 @@ Oracle
     started afterwards is written to a connection that is not one of the replaced ones;
  3. at quiescence, a replaced connection on which no non-orphaned request awaits an answer any more is closed;
  4. an overloaded connection (threshold reached) does get replaced: after the next borrow and a drain the pool's connection is a
-    different one (also the second time).
+    different one (also the second time);
+ 5. no fault is injected before teardown, so the pool must still be in service and its host up after the replacements.
 """
 import random
 
@@ -232,6 +233,12 @@ def run_history(ctx, seed):
                     viol.append(('replaced-connection-not-closed-when-only-orphans-remain', 'conn %d was replaced, no non-orphaned request awaits an answer on it '
                                  '(in_flight %d, %d orphans, in trash: %s) but it is still open at quiescence' % (
                                      cid, c.in_flight, len(c.orphaned_request_ids), c in pool._trash)))
+            # ---------------- oracle 5: nothing failed in this history (no fault is injected before teardown): replacing a connection must not cost the pool
+            if pool.is_shutdown or pool.host.is_up is False:
+                viol.append(('pool-shut-down-although-no-connection-failed', 'no connection failed in this history, yet after the replacement(s) the pool is_shutdown=%s '
+                             'and host.is_up=%s: a connection closed on purpose by the replacement logic was taken for a connection failure' % (
+                                 pool.is_shutdown, pool.host.is_up)))
+            info['pool_alive_checked'] = 1
             info['replaced'] = list(replaced)
             info['duplicate_replacement_requests'] = pw.duplicate_replacements(pool)
             for c in net.conns:
@@ -293,6 +300,7 @@ def run(ctx):
         ctx.count("placements_checked_after_replacement", info.get('placements_checked', 0))
         ctx.count("replaced_connections_checked_for_closure", info.get('replaced_conns_checked', 0))
         ctx.count("connections_seen_in_trash", info['trashed'])
+        ctx.count("pools_checked_alive_after_replacement", info.get('pool_alive_checked', 0))
         ctx.count("late_responses", info['late'])
         ctx.count("answers_racing_the_client_timeout", info.get('edge', 0))
         if info.get('timer_thread'):
